@@ -487,8 +487,9 @@ def shuffle_fn_result(f, X, n, start=None, end=None, seed=None):
     if f.attrs.get('recording'):
         Lc = O.conc_int(X.shape[2])
         snap = X.snapshot()
+        sd = seed if seed is not None else 0
         return Tn.fresh([X.shape[0], n, X.shape[1], X.shape[2]],
-                        lambda b, j, c, p: snap(b, c, O.mod(p - (j + 1), Lc)) if Lc > 0 else 0, 'int', origin='fresh:shuffle_fn')
+                        lambda b, j, c, p: snap(b, c, O.mod(p - (j + 1 + sd), Lc)) if Lc > 0 else 0, X.kind, origin='fresh:shuffle_fn')
     idx = [z3.Int('sf%d' % i) for i in range(3)]
     body = O.to_z3(X.elem(*idx))
     inb = And(*[And(0 <= i, i < d) for i, d in zip(idx, X.shape)])
